@@ -289,8 +289,12 @@ Definition scope (c : cls) (g : graph) (M : module) : list (str * ent) :=
    (its own, those of its hosts, the module's scope by host association) *)
 Definition nested_imports (c : cls) (g : graph) (M : module) (S : nscope) : list (str * ent) :=
   imports g (as_module M S) (accessible_n (length g) c g).
+(* an interface body has no host association (without IMPORT): only its own USE statements count *)
+Definition is_body (S : nscope) : bool :=
+  match last (s_kinds S) NRoutine with NRoutine => false | _ => true end.
 Definition nested_lower_spec (c : cls) (g : graph) (M : module) (S : nscope) : list (str * ent) :=
-  scope c g M ++ flat_map (nested_imports c g M) (hosts M S).
+  if is_body S then nested_imports c g M S
+  else scope c g M ++ flat_map (nested_imports c g M) (hosts M S).
 
 (* ------------------------------------------------------------------ comparison, wf, regions *)
 
